@@ -71,11 +71,11 @@ CLAIMED = {
          "Held-on-N-cases exploration; the unframed-concatenation collisions (boundary move, merge/split) are genuine and listed as known findings by exact signature, all other tamper operators must be refused.",
          "HMAC-SHA256/ChaCha20 trusted; versions < 2^63.",
          "C17"),
- "C01": ("stateful property-based testing: generated request histories on a real channel (API level), ghost ledger of disclosed secrets vs independently verified accepted validations, restarts injected",
+ "C01": ("stateful property-based testing: generated request histories on a real channel, executed at API level or through the vls-protocol-signer wire handlers at negotiated protocol versions 4, 5 and 6 (old combined validate+revoke, point requests that return secrets), ghost ledger of disclosed secrets vs independently verified accepted validations, restarts injected",
          "Held-on-N-histories exploration of the holder revocation state machine against an explicit ledger oracle; not a proof.",
          "Trusted: LDK commitment/HTLC transaction builders used for the reference transactions, libsecp256k1 verification.",
          "C01"),
- "C02": ("stateful property-based testing: same machine with signing requests, ledger sets Signed/Revoked must stay disjoint and Revoked frozen after first signature",
+ "C02": ("stateful property-based testing: same machine (API level and wire handlers at protocol versions 4/5/6) with signing requests, ledger sets Signed/Revoked must stay disjoint and Revoked frozen after first signature",
          "Held-on-N-histories exploration; the one genuine defect found (revoke after sign with a pre-validated successor) is repaired by a fix: commit and kept as a regression replay.",
          "Trusted: LDK builders for signature attribution; mutual-close signatures are outside Signed.",
          "C02"),
